@@ -233,10 +233,22 @@ def write_side(facts, res, R):
     b = facts.one(R, 'CTParserBuilder::gen_parse_function', crate='lrpar', name='gen_parse_function', impl_re=r'^lrpar::ctbuilder::CTParserBuilder<')
     sf = facts.adt('lrpar::ctbuilder::SerialisationFormat')
     vn = {v['discr']: v['name'] for v in sf['variants']}
-    sers = b.calls_named('serialize')
+    sers = [(bb, t, None) for bb, t in b.calls_named('serialize')]
+    if not sers:
+        # both buffers written by one local helper that is generic in the configuration: the configuration is the helper call's
+        # Configuration<..> type argument, and the helper must serialise exactly twice with its own configuration parameter
+        for bb, t in b.calls():
+            hb = facts.bodies.get(cpath(t) or '')
+            if hb is None or hb.crate != 'lrpar' or hb.kind not in ('fn', 'assoc_fn'):
+                continue
+            hs = hb.calls_named('serialize')
+            cfgs = {callee_of(x)['args'][-1] if callee_of(x)['args'] else '?' for _b, x in hs}
+            targs = [a for a in (callee_of(t).get('args') or []) if a.startswith('wincode::config::Configuration<')]
+            if len(hs) == 2 and len(cfgs) == 1 and not next(iter(cfgs)).startswith('wincode::') and len(targs) == 1:
+                sers += [(bb, t, targs[0]), (bb, t, targs[0])]
     out = {}
-    for bb, t in sers:
-        cfg = callee_of(t)['args'][-1] if callee_of(t)['args'] else '?'
+    for bb, t, cfg_override in sers:
+        cfg = cfg_override or (callee_of(t)['args'][-1] if callee_of(t)['args'] else '?')
         # which variant arm? the switch successor that dominates this call
         arm = None
         for sb in b.reachable():
